@@ -3,4 +3,5 @@ pub mod codec;
 pub mod obs;
 pub mod server;
 pub mod steps;
+pub mod values;
 pub mod zoo;
